@@ -124,6 +124,16 @@ impl Property for GramProp {
         Case::gram("gram", s.rest().to_vec(), n)
     }
     fn check(&self, case: &Case) -> Verdict {
+        // text-based replays (independent of later changes to the grammar's choice-stream layout)
+        if case.kind == "text" && self.id == "C12" {
+            return check_c12_text(case.t0());
+        }
+        if case.kind == "expect-missing" && self.id == "C14" {
+            return check_c14_text(case);
+        }
+        if case.kind != "gram" {
+            return Verdict::discard("case kind not applicable to this property", case.t0().to_string());
+        }
         let g = build(&case.bytes);
         let src = g.out.clone();
         let mut vd = Verdict { key: src.clone(), ..Default::default() };
@@ -273,5 +283,44 @@ fn check_c14(g: &G, sel: u64, mut vd: Verdict) -> Verdict {
         vd.violations.push(Violation::new("C14", "no-recovery-token", format!("no-recovery-token:{}", d.tok), format!("expected zero-width {} at byte {exp}: {show}", d.tok)));
     }
     vd.nontrivial = true;
+    vd
+}
+
+/// C12 on a given program text (replays): no error, initial configuration at the end, both builds
+fn check_c12_text(src: &str) -> Verdict {
+    let mut vd = Verdict { key: src.to_string(), nontrivial: true, ..Default::default() };
+    for vr in [Variant::Rel, Variant::Dbg] {
+        match lex(vr, src) {
+            Lexed::Ok(d) if !d.verif.budget_exceeded => {
+                if let Some(e) = d.errs.first() {
+                    vd.violations.push(Violation::new("C12", "error-on-well-formed", format!("error-on-well-formed:{:?}", e.k), format!("[{}] {:?} at byte {}", vr.name(), e.k, e.b)));
+                } else if !d.verif.end_is_initial() {
+                    vd.violations.push(Violation::new("C12", "residual-state", "residual-state", format!("[{}] mode stack {:?}, nesting {}, pending {:?}, checkpoint {}", vr.name(), d.verif.end_mode_stack, d.verif.end_macro_nesting_level, d.verif.end_pending_stat_stack, d.verif.end_checkpoint_live)));
+                }
+            }
+            Lexed::Panic(p) => vd.violations.push(Violation::new("C12", "no-result", format!("no-result:{}", super::univ::panic_sig(vr, &p)), format!("{} build panicked: {}", vr.name(), p.msg.lines().next().unwrap_or("")))),
+            _ => vd.violations.push(Violation::new("C12", "no-result", format!("no-result:budget:{}", vr.name()), format!("{} build exceeded the iteration budget", vr.name()))),
+        }
+    }
+    vd.violations.dedup_by(|a, b| a.sig == b.sig);
+    vd
+}
+
+/// C14 on a given mutated text: texts = [text, error kind name, token type name], n = expected offset
+fn check_c14_text(case: &Case) -> Verdict {
+    let (m, err, tok) = (case.t0(), case.t1(), case.texts.get(2).map(|s| s.as_str()).unwrap_or(""));
+    let exp = case.n as usize;
+    let mut vd = Verdict { key: m.to_string(), nontrivial: true, ..Default::default() };
+    let r = match lex(Variant::Rel, m) {
+        Lexed::Ok(r) if !r.verif.budget_exceeded => r,
+        _ => return Verdict::discard("no result (C01 territory)", m.to_string()),
+    };
+    let has_err = r.errs.iter().any(|e| format!("{:?}", e.k) == err && e.b as usize == exp);
+    let has_tok = r.toks.iter().any(|t| tname(t.t) == tok && t.b as usize == exp && t.e as usize == exp);
+    if !has_err {
+        vd.violations.push(Violation::new("C14", "not-diagnosed", format!("not-diagnosed:{err}"), format!("expected {err} at byte {exp} of {m:?}; errors: {:?}", r.errs.iter().map(|e| (e.k, e.b)).collect::<Vec<_>>())));
+    } else if !has_tok {
+        vd.violations.push(Violation::new("C14", "no-recovery-token", format!("no-recovery-token:{tok}"), format!("expected zero-width {tok} at byte {exp} of {m:?}")));
+    }
     vd
 }
